@@ -1,11 +1,13 @@
 import NanoVerif.Model.DriverMain
 import NanoVerif.Driver.Solver
+import NanoVerif.Driver.SolverStep
 /-! line-protocol driver of C01 (must not import Mathlib, directly or indirectly) -/
 open NanoVerif
 
 def handle (fam : String) (rest : List String) : Option String :=
   match fam with
   | "solver" => Driver.Solver.handleC01 rest
+  | "ls0" => Driver.SolverStep.handle rest
   | _ => none
 
 def main : IO Unit := DriverMain.run handle
